@@ -154,11 +154,25 @@ impl ConnectionManager {
                     }
                 },
                 Some(connecting_output) = self.pending_connections.join_next() => {
-                    self.handle_connecting_result(connecting_output.unwrap());
+                    match connecting_output {
+                        Ok(connecting_output) => self.handle_connecting_result(connecting_output),
+                        Err(e) => {
+                            // If a task panics, just propagate it. A cancelled task (e.g. the
+                            // runtime is shutting down) is not a failure.
+                            if e.is_panic() {
+                                std::panic::resume_unwind(e.into_panic());
+                            }
+                        }
+                    }
                 },
                 Some(connection_handler_output) = self.connection_handlers.join_next() => {
-                    // If a task panics, just propagate it
-                    connection_handler_output.unwrap();
+                    if let Err(e) = connection_handler_output {
+                        // If a task panics, just propagate it. A cancelled task (e.g. the
+                        // runtime is shutting down) is not a failure.
+                        if e.is_panic() {
+                            std::panic::resume_unwind(e.into_panic());
+                        }
+                    }
                 },
             }
         }
